@@ -68,6 +68,7 @@ Definition reduce (a : agg) (ns : list num) : outcome value :=
   | ASum => Ok (VNum (fold_sum ns))
   | AProd => Ok (VNum (fold_prod ns))
   | AMedian =>
+      if has_nan ns then Ok (VNum nnan) else
       do s <- sort_pc ns;
       let n := len s in
       if n mod 2 =? 0 then
@@ -673,7 +674,8 @@ Lemma median_order_stat l : l <> [] -> nan_free l = true ->
 Proof.
   intros Hne Hl n.
   destruct (bi_agg_nums AMedian l eq_refl Hne) as [A B]. cbn [bi_agg] in A, B. rewrite A, B.
-  cbn [reduce]. destruct (sort_pc_sorts l Hl) as (s & Hs & P & S). rewrite Hs. cbn [obind].
+  cbn [reduce]. replace (has_nan l) with false by (rewrite has_nan_nan_free, Hl; reflexivity).
+  destruct (sort_pc_sorts l Hl) as (s & Hs & P & S). rewrite Hs. cbn [obind].
   assert (Hlen : length s = n) by (symmetry; now apply Permutation_length).
   assert (Hns : nan_free s = true) by (eapply nan_free_perm; eauto).
   assert (Hn0 : (0 < n)%nat) by (subst n; destruct l; [contradiction|cbn; lia]).
